@@ -173,6 +173,8 @@ INS_CELLS = [
     ("ins-constrained-prior", "G2c", {}, None),
     ("ins-constrained-prior-strict-resume", "G2c", {"strict_threshold": True, "save_log_q": True}, [2]),
     ("ins-bimodal", "Bi2", {"nlive": 400, "min_samples": 100}, None),
+    ("ins-edge-peaked-noreparam-clip", "G2e", {"reparameterisation": None, "clip": True, "max_iteration": 8}, None),
+    ("ins-edge-peaked-logit-maf", "G2e", {"flow_config": {"ftype": "maf"}, "max_iteration": 8}, None),
     ("ins-gw5", "GW5", {"nlive": 400, "min_samples": 100, "max_iteration": 8}, None),
 ]
 
